@@ -19,14 +19,14 @@ CONFIG = {
         "floats in option values (fFloat) are not modelled",
     ],
     "mult_search": 3,
-    "refuted": ["C05_scope_shadow_refuted (known finding: nested type shadows)", "C05_scope_cross_package_refuted (known finding: package name captured)",
+    "refuted": ["C05_scope_shadow_previous_refuted, C05_scope_cross_package_previous_refuted (the printer before fix bb3e43d)",
                 "C05_scope_snapshot_refuted (snapshot code, repaired by fix d554404)"],
-    "partial": ["C05_scope_same_package_partial / C05_scope_other_package_partial: the scope-shortening lemma under explicit no-capture hypotheses; C05_scope_full_statement (no hypotheses) is false for the code as it is",
-                "whole-descriptor statement parse(print D) ~ D: literal and scope layers proved, layout/character layer covered by the oracle only"],
+    "partial": ["whole-descriptor statement parse(print D) ~ D: literal layer and scope layer (C05_scope_full) proved for all inputs, layout/character layer covered by the round-trip oracle only",
+                "C05_scope_same_package_previous_partial / C05_scope_other_package_previous_partial: the lemma for the previous printer under explicit no-capture hypotheses (kept as the route to C05_scope_full)"],
 }
 
 MANIFEST = {
-    "text": "Theorems over a Gallina model of the printer's literal layer and scope shortening: for all byte strings (incl. invalid UTF-8) the literal written by prototextString is pure ASCII and is read back by the text-format lexer as the same bytes, also in front of arbitrary following text; integers, booleans and dotted identifiers round-trip; a type name shortened by contextRefName resolves, from the scope it is printed in, to the type it was written for whenever no nested type or package captures its first component (proved for all symbol tables; refuted without the hypothesis by concrete tables). Tied to the code by regenerated escape/arm tables, by evaluating the model printer, the model lexer and the model resolver against prototextString, marshalSingular, contextRefName, the real protocompile lexer and the real protocompile linker, and by the end-to-end oracle PrintFile -> protocompile parse+link -> descriptor comparison (every field, option and extension value, leading comments) -> PrintFile again byte-equal on every .proto of the repository and on the files compiled from generated j5s packages.",
-    "note": "Level: proof for the literal layer (full) and the scope-shortening lemma (partial: under no-capture hypotheses, refuted without); the layout/character layer is checked by the round-trip oracle only. Known findings: options on map entry value fields are not printed (map:key:id62 degrades to map<string,string>), nested types that shadow / package names that are captured make a shortened name resolve wrongly or not at all, a trailing comment printed after a closing brace is lost on re-parse. Fixed in this round: empty type name for self-referencing fields, json_name not printed.",
+    "text": "Theorems over a Gallina model of the printer's literal layer and scope shortening: for all byte strings (incl. invalid UTF-8) the literal written by prototextString is pure ASCII and is read back by the text-format lexer as the same bytes, also in front of arbitrary following text; integers, booleans and dotted identifiers round-trip; the name contextRefName prints for a type reference (shortened, or fully qualified with a leading dot when a nested type or a package would capture it) resolves, from the scope it is printed in, to the type it was written for — for all symbol tables and nestings (the previous printer: proved under no-capture hypotheses, refuted without them by concrete tables). Tied to the code by regenerated escape/arm tables, by evaluating the model printer, the model lexer and the model resolver against prototextString, marshalSingular, contextRefName, the real protocompile lexer and the real protocompile linker, and by the end-to-end oracle PrintFile -> protocompile parse+link -> descriptor comparison (every field, option and extension value, leading comments) -> PrintFile again byte-equal on every .proto of the repository and on the files compiled from generated j5s packages.",
+    "note": "Level: proof for the literal layer and the scope layer (full, all inputs); the layout/character layer is checked by the round-trip oracle only (partial). Known findings: options on map entry value fields are not printed (map:key:id62 degrades to map<string,string>), a trailing comment printed after a closing brace is lost on re-parse. Fixed in this round: empty type name for self-referencing fields, json_name not printed, shortened/cross-package names captured by nested types or packages.",
     "technique": "Rocq/Coq proof (UTF-8 decode/encode round trip, escape inverse pairs, radix round trip, scope-resolution lemma by induction on the scope chain) + regenerated escape tables + in-Coq differential correspondence against the real printer, lexer and linker + end-to-end round-trip oracle",
 }
